@@ -964,6 +964,9 @@ def _decide_one(i):
             return (i, 'refuted', dt + dt2, 'bounded-scope counter-model', vals)
         if _POOL.get('fast'): return (i, 'unknown', dt + dt2, 'fast-mode: not proved by the first-stage ladder', None)
         # no counter-model in the small scope: the stage-1 `sat` was an artefact of incomplete instantiation -> relaxed matching, then deeper instantiation
+        r6, dt6, ninst6, s6 = discharge(ob, timeout=min(timeout, 15000), cap=10)            # small untyped instantiation: independent of the signature heuristics, cheap at this size
+        if r6 == z3.unsat: return (i, 'proved', dt + dt2 + dt6, f'{ninst6} instances (untyped, small)', None)
+        dt2 += dt6
         r5, dt5, ninst5, s5 = discharge_typed(ob, timeout=min(timeout, 20000), cap_per_var=10, relax=True)
         if r5 == z3.unsat: return (i, 'proved', dt + dt2 + dt5, f'{ninst5} instances (owner-relaxed matching)', None)
         r3, dt3, ninst, s3 = discharge_typed(ob, timeout=timeout, rounds=6, cap_per_var=120, max_inst=40000)
